@@ -3,6 +3,7 @@ from __future__ import annotations
 
 import glob
 import io
+import collections
 import json
 import os
 
@@ -10,7 +11,7 @@ from . import core
 from . import format_common as F
 from .core import Check, exc_code, h63_list
 
-IMPORTS = ["Base.Prelude", "Psd.Codec", "Psd.Model", "Psd.Leaf", "Psd.Descriptor", "Psd.Effects", "Psd.Patterns", "Psd.Struct", "Psd.Adjust", "Psd.Vector", "Psd.Linked", "Psd.FilterFx", "Psd.Rsrc", "Psd.Slices", "Psd.Corr"]
+IMPORTS = ["Base.Prelude", "Psd.Codec", "Psd.Model", "Psd.Leaf", "Psd.Descriptor", "Psd.Effects", "Psd.Patterns", "Psd.Struct", "Psd.Adjust", "Psd.Vector", "Psd.Linked", "Psd.FilterFx", "Psd.Rsrc", "Psd.Slices", "Psd.Misc", "Psd.Meta", "Psd.LrBlockProofs", "Psd.Corr"]
 KINDS = ["header", "cmd", "res", "resources", "tb", "tbs", "mask", "ranges", "rec", "li", "glmi", "lami", "img", "psd"]
 FIXTURES = os.path.join(core.REPO, "tests", "psd_files")
 
@@ -1101,7 +1102,7 @@ def run():
                 one_ll(lst, "fixture")
                 nfl += 1
     fn = "let units := %s in let terms := %s in linked_outcome units terms" % (cu_ll, ct_ll)
-    bad = ck.correspond("linked_layers", fn, IMPORTS, llcases, lambda l: F.coq_list(F.coq_linked, l), chunk=40)
+    bad = ck.correspond("linked_layers", fn, IMPORTS, llcases, lambda l: F.coq_list(F.coq_linked, l) if l else "(@nil linked)", chunk=40)
     for i in bad[:5]:
         ck.notes.append("LinkedLayers model/implementation differ on %r: impl %r" % (str(llcases[i][0])[:400], llcases[i][1]))
 
@@ -1274,6 +1275,105 @@ def run():
     for i in bad[:5]:
         ck.notes.append("Slices model/implementation differ on %r: impl %r" % (str(slcases[i][0])[:400], slcases[i][1]))
 
+    # ---- (a14) Stage 3 (6): UserMask, SmartObjectLayerData, PlacedLayerData, TypeToolObjectSetting (engine data opaque),
+    #      PixelSourceData2, MetadataSettings, Annotations - generated, boundary instances, fixture instances
+    from psd_tools.psd import tagged_blocks as _TB
+
+    b6cases = []
+    terms_b6, units_b6 = F.descriptor_env()
+    cu_b6, ct_b6 = F.coq_env(terms_b6, units_b6)
+    b6classes = (_TB.UserMask, _TB.SmartObjectLayerData, _TB.PlacedLayerData, _TB.TypeToolObjectSetting, _TB.PixelSourceData2,
+                 _TB.MetadataSettings, _TB.Annotations)
+    try:
+        from psd_tools.constants import PlacedLayerType as _PLT
+        ms = _TB.MetadataSetting
+        ck.coq_eval("Gen_MiscTables", "From Coq Require Import ZArith List.\nImport ListNotations.\nOpen Scope Z_scope.\n"
+                    "Lemma gen_placed_types_agree : %s = model_placed_types. Proof. vm_compute. reflexivity. Qed.\n"
+                    "Lemma gen_meta_sigs_agree : %s = model_meta_sigs. Proof. vm_compute. reflexivity. Qed.\n"
+                    "Lemma gen_meta_keys_agree : forallb (fun k => memz k model_meta_desc_keys) %s && forallb (fun k => memz k %s) model_meta_desc_keys = true. Proof. vm_compute. reflexivity. Qed.\n"
+                    % ("[" + ";".join("(%d)%%Z" % int(x) for x in _PLT) + "]", "[" + ";".join("(%d)%%Z" % F.fcc(x) for x in ms._KNOWN_SIGNATURES) + "]",
+                       "[" + ";".join("(%d)%%Z" % F.fcc(x) for x in sorted(ms._KNOWN_KEYS)) + "]",
+                       "[" + ";".join("(%d)%%Z" % F.fcc(x) for x in sorted(ms._KNOWN_KEYS)) + "]"),
+                    ["Base.Prelude", "Psd.Codec", "Psd.Model", "Psd.Leaf", "Psd.Descriptor", "Psd.Struct", "Psd.Linked", "Psd.Misc", "Psd.Meta"], timeout=300)
+        ck.obligations.append(("generated-misc-tables-agree", True, ""))
+    except Exception as e:
+        ck.obligations.append(("generated-misc-tables-agree", False, str(e)[-500:]))
+
+    def one_b6(a, origin):
+        out, info = F.run_blk6(a, exc_code)
+        if out is None:
+            ck.count("blk6-not-constructible")
+            return
+        b6cases.append((a, out))
+        ck.count("blk6:%s:%s%s" % (origin, a[0], "+engine-data(opaque)" if F.has_engine_data(a) else ""))
+        if info["stage"] == "write":
+            return
+        ck.nontriv(("blk6", h63_list(0, list(info["bytes"]))))
+        if info["written"] != len(info["bytes"]):
+            ck.fail("written-count-block", {"blk6": jdeep(a)}, info["written"], len(info["bytes"]))
+        if F.wf_blk6(a):
+            if info["stage"] == "read" or not (info["eq"] and info["same_canon"]):
+                ck.fail("block-roundtrip:" + a[0], {"blk6": jdeep(a)},
+                        "raised %r" % info["err"] if info["stage"] else "re-read != original", "X.frombytes(x.tobytes()) == x")
+            elif not info["rewrite_same"]:
+                ck.fail("block-rewrite:" + a[0], {"blk6": jdeep(a)}, "re-written bytes differ", "identical bytes")
+
+    for i in range(4000 if thorough else 420):
+        one_b6(F.g_blk6(rng, terms_b6, units_b6, wf=rng.random() < 0.75), "generated")
+    for label, obj in F.boundary_payloads():
+        if isinstance(obj, b6classes):
+            try:
+                one_b6(F.blk6_of_obj(obj, 4), "boundary")
+            except Exception:
+                ck.count("blk6:boundary:outside-model")
+    nf6 = collections.Counter()
+    for pth in fixture_paths(1 << 40 if thorough else 300000):
+        doc = fixture_doc(pth)
+        if doc is None:
+            continue
+        for x in BaseElement_traverse(doc, b6classes):
+            try:
+                a = F.blk6_of_obj(x, [4, 1][sum(nf6.values()) % 2])
+            except Exception:
+                ck.count("blk6:fixture:outside-model")
+                continue
+            if nf6[a[0]] < (1000 if thorough else 25):
+                one_b6(a, "fixture")
+                nf6[a[0]] += 1
+    fn = "let units := %s in let terms := %s in blk6_outcome units terms" % (cu_b6, ct_b6)
+    bad = ck.correspond("misc_blocks", fn, IMPORTS, b6cases, F.coq_blk6, chunk=40)
+    for i in bad[:5]:
+        ck.notes.append("block model/implementation differ on %r: impl %r" % (str(b6cases[i][0])[:400], b6cases[i][1]))
+
+    # ---- (a15) LayerInfoBlock ('Lr16' / 'Lr32'): the body of a LayerInfo, every version x padding x charset
+    lbcases = []
+    for i in range(3000 if thorough else 240):
+        enc = F.ENCODINGS[i % len(F.ENCODINGS)]
+        v, pad = [1, 2][(i // 5) % 2], [1, 2, 4][(i // 10) % 3]
+        l = F.g_lr_block(rng, enc)
+        out, info = F.run_lr_block(v, pad, l, enc, exc_code)
+        if out is None:
+            ck.count("lr-block-not-constructible")
+            continue
+        lbcases.append(((v, pad, l), out))
+        ck.count("lr-block:%d layers" % abs(l[0]))
+        if info["stage"] == "write":
+            continue
+        ck.nontriv(("lrblock", h63_list(0, list(info["bytes"]))))
+        if info["written"] != len(info["bytes"]):
+            ck.fail("written-count-lr-block", {"kind": "lrblock", "version": v, "padding": pad, "encoding": enc, "li": jdeep(l)},
+                    info["written"], len(info["bytes"]))
+        if F.wf_lr_block(l):
+            if info["stage"] == "read" or not (info["eq"] and info["same_canon"]):
+                ck.fail("lr-block-roundtrip", {"kind": "lrblock", "version": v, "padding": pad, "encoding": enc, "li": jdeep(l)},
+                        "raised %r" % info["err"] if info["stage"] else "re-read != original", "X.frombytes(x.tobytes()) == x")
+            elif not info["rewrite_same"]:
+                ck.fail("lr-block-rewrite", {"kind": "lrblock", "version": v, "padding": pad, "encoding": enc, "li": jdeep(l)},
+                        "re-written bytes differ", "identical bytes")
+    bad = ck.correspond("layer_info_blocks", "lrblock_outcome", IMPORTS, lbcases, lambda a: "(%d, %d, %s)" % (a[0], a[1], F.coq_li(a[2])), chunk=40)
+    for i in bad[:5]:
+        ck.notes.append("LayerInfoBlock model/implementation differ on %r: impl %r" % (str(lbcases[i][0])[:400], lbcases[i][1]))
+
     # ---- (b) fixtures: implementation reads and re-writes; the model reads the same bytes
     from psd_tools.psd import PSD
 
@@ -1409,6 +1509,11 @@ def run():
                 "BrightnessContrast", "ColorBalance", "Exposure", "HueSaturation", "SelectiveColor", "PhotoFilter", "ChannelMixer",
                 "Levels", "LevelRecord", "Curves", "CurvesExtraMarker", "CurvesExtraItem", "GradientMap", "ColorStop",
                 "TransparencyStop", "ColorLookup",
+                # Psd/LrBlockProofs.v
+                "LayerInfoBlock",
+                # Psd/Misc.v, Psd/Meta.v
+                "UserMask", "SmartObjectLayerData", "PlacedLayerData", "TypeToolObjectSetting", "PixelSourceData2", "MetadataSettings",
+                "MetadataSetting", "Annotations", "Annotation",
                 # typed image resources (Psd/Rsrc.v, Psd/Slices.v)
                 "Slices", "SlicesV6", "SliceV6",
                 "AlphaIdentifiers", "LayerGroupEnabledIDs", "LayerGroupInfo", "HalftoneScreens", "HalftoneScreen", "TransferFunctions",
@@ -1492,7 +1597,8 @@ def replay(path):
         print("input:", json.dumps(inp)[:1500])
         runners = {"adj": lambda a: F.run_adj(a, inp.get("padding", 4), exc_code), "vmask": lambda a: F.run_vmask(a, exc_code),
                    "linked": lambda a: F.run_linked(a, exc_code), "fx": lambda a: F.run_feffects(a, exc_code),
-                   "rsrc": lambda a: F.run_rsrc(a, exc_code), "slices": lambda a: F.run_slices(a, exc_code)}
+                   "rsrc": lambda a: F.run_rsrc(a, exc_code), "slices": lambda a: F.run_slices(a, exc_code),
+                   "blk6": lambda a: F.run_blk6(a, exc_code)}
         for k, fn in runners.items():
             if isinstance(inp, dict) and k in inp:
                 out, info = fn(inp[k])
